@@ -29,3 +29,32 @@ def cbmc_argv(gb="a.gb", unwind=None, unwindset=None, object_bits=None, extra=()
         a += ["--object-bits", str(object_bits)]
     a += list(extra)
     return a
+
+
+def unwindset_from_loops(d, gb, rules, checks_flags=("--drop-unused-functions",)):
+    """Build a --unwindset value from `cbmc --show-loops`: rules = [(substring, bound)], first match wins.
+    Loop ids that contain a comma cannot be named on the command line (CBMC splits the option at
+    commas); they fall under the global --unwind bound."""
+    import json
+    from . import cbmc as C
+    out = os.path.join(d, "loops.json")
+    rc, _so, se, _dt = C.run(["cbmc", gb] + list(checks_flags) + ["--show-loops", "--json-ui"], d, 300, 8, stdout_path=out)
+    if rc != 0:
+        raise C.Undecided("cbmc --show-loops failed: %s" % se[-200:])
+    with open(out) as f:
+        data = json.load(f)
+    loops = []
+    for item in data:
+        if "loops" in item:
+            loops = item["loops"]
+    us, unnamed = [], []
+    for lp in loops:
+        name = lp["name"]
+        if "," in name:
+            unnamed.append(name)
+            continue
+        for sub, bound in rules:
+            if sub in name:
+                us.append("%s:%d" % (name, bound))
+                break
+    return ",".join(us), unnamed
